@@ -2,7 +2,7 @@ package main
 
 // Hand-written regression cases, always run first (indices 0..len(corpus)-1): the documents of
 // DESIGN.md section 6 rows 27-29, the union-condition defect found while building this check,
-// the two known identifier-clash classes, and a few plain shapes.
+// the two known identifier-clash classes (member-name-clash K1-K3, decl-name-clash K4-K5), and a few plain shapes.
 
 type corpusCase struct {
 	note  string
@@ -69,6 +69,25 @@ var corpus = []corpusCase{
 	fixed("known: field key equals fragment field name", &doc{ops: []*opDef{q("K1", fld("node", fld("__typename"), fa("User", "id"), on("User", fld("name"))))}}),
 	fixed("known: field key differs from fragment field name in case only", &doc{ops: []*opDef{q("K2", fld("node", fld("__typename"), fa("user", "id"), on("User", fld("name"))))}}),
 	fixed("known: typename__ next to __typename", &doc{ops: []*opDef{q("K3", fld("node", fld("__typename"), fa("typename__", "id")))}}),
+	{note: "known: enum constants that differ only in letter case", build: func() (*schemaDef, *doc, string) {
+		s := fixedSchema()
+		s.byName["Color"].values = []string{"RED", "red", "GREEN"}
+		return s, &doc{ops: []*opDef{q("K4", fld("me", fld("color")))}}, "known: enum constants that differ only in letter case"
+	}},
+	{note: "known: enum named like a generated <Op>Data type", build: func() (*schemaDef, *doc, string) {
+		s := fixedSchema()
+		s.byName["Color"].name = "K5Data"
+		s.byName["K5Data"] = s.byName["Color"]
+		delete(s.byName, "Color")
+		for _, d := range s.types {
+			for i := range d.fields {
+				if d.fields[i].typ.unwrap() == "Color" {
+					d.fields[i].typ = named("K5Data")
+				}
+			}
+		}
+		return s, &doc{ops: []*opDef{q("K5", fld("me", fld("color")))}}, "known: enum named like a generated <Op>Data type"
+	}},
 	fixed("invalid: unknown field", &doc{ops: []*opDef{q("I1", fld("node", fld("nope")))}}),
 	fixed("valid but rejected by the generator: fragments on an interface without __typename", &doc{ops: []*opDef{q("I2", fld("node", on("User", fld("name"))))}}),
 }
